@@ -5,7 +5,7 @@ ids="$@"; [ -z "$ids" ] && ids=$(ls seeded | grep -E '^C[0-9]+-')
 out=seeded/MATRIX.txt
 for id in $ids; do
   [ -f seeded/$id/patch.diff ] || continue
-  res=$(tools/try_mutant.sh /verif/seeded/$id/patch.diff C01,C02,C03,C14,C17,C19,C20 2>&1)
+  res=$(NO_REBUILD=1 VERIF_NOMIN=1 tools/try_mutant.sh /verif/seeded/$id/patch.diff C01,C02,C03,C14,C17,C19,C20 2>&1)
   line="$id"
   for p in C01 C02 C03 C14 C17 C19 C20; do
     rc=$(echo "$res" | grep -E "^--- $p exit=" | sed 's/.*exit=//')
@@ -15,4 +15,5 @@ for id in $ids; do
   echo "$line" | tee -a $out
   echo "$res" | grep -E "^violation detail" | cut -c1-200 | sed "s/^/    $id: /" >> seeded/MATRIX-details.txt
 done
+./check build >/dev/null 2>&1
 echo "matrix done" >> $out
